@@ -28,6 +28,9 @@ def encodings(rng):
 
     return {
         "reused arrays": reuse_arrays, "reused lists": reuse_lists,
+        # a number and the text that spells it are different labels (a prediction read back from a file next to a numeric label)
+        "number vs its spelling": lambda c, t: (lambda v: (v, v) if c == 0 else (v, str(v)))(rng.choice([1, 2, 3, 0.5, True])),
+        "bytes vs text": lambda c, t: (lambda v: (v, v) if c == 0 else (v, v.encode()))(rng.choice(["a", "b", "xyz"])),
         "ints 7/3": lambda c, t: (7, 7) if c == 0 else (7, 3),
         "strings": lambda c, t: pick(classes, c),
         "bools": lambda c, t: pick([True, False], c),
